@@ -873,6 +873,13 @@ func (e *Exec) evalCall(env *Env, x *ast.CallExpr) (Val, error) {
 				return Val{T: tBool, Term: e.comp(env.cur, "CALLED_"+n, "Bool")}, nil
 			}
 			return Val{T: tInt, Term: e.comp(env.cur, "COUNT_"+n, "Int")}, nil
+		case "allocated":
+			// allocated(x): the reference x is nil or was allocated before the current state (true of every Go pointer; a hint for frames)
+			v, err := e.eval(env, x.Args[0])
+			if err != nil {
+				return Val{}, err
+			}
+			return Val{T: tBool, Term: app("<=", e.refOfVal(v), e.allocCtr(env.cur))}, nil
 		case "cached":
 			v, err := e.eval(env, x.Args[0])
 			if err != nil {
@@ -911,6 +918,14 @@ func (e *Exec) evalCall(env *Env, x *ast.CallExpr) (Val, error) {
 			}
 			_, u := e.reg.unbox(t, v.Term)
 			return Val{T: t, Term: u}, nil
+		case "iters":
+			// iters(n): number of iterations of map-range loop n completed so far (counting the current one once its key is taken)
+			n, _ := strconv.Atoi(exprText(x.Args[0]))
+			in, ok := e.loopIters[n]
+			if !ok {
+				return Val{}, fmt.Errorf("loop %d is not a map range loop (or not reached yet)", n)
+			}
+			return Val{T: tInt, Term: e.comp(env.cur, in, "Int")}, nil
 		case "visited":
 			// visited(n, k): key k was already visited by map-range loop n
 			n, _ := strconv.Atoi(exprText(x.Args[0]))
